@@ -69,6 +69,10 @@ pub struct RunState {
     /// run the next pool execution with segment threads and preemption
     pub preempt: bool,
     pub preemptions: u64,
+    /// every work item becomes its own segment (one logical thread each)
+    pub force_split: bool,
+    /// preempt at (almost) every sched point instead of every 2^k-th
+    pub fine_preempt: bool,
 
     pub token: Option<CancelToken>,
     pub cancel_plan: CancelPlan,
@@ -96,6 +100,8 @@ impl RunState {
             page: None,
             preempt: false,
             preemptions: 0,
+            force_split: false,
+            fine_preempt: false,
             token: None,
             cancel_plan: CancelPlan::Never,
             polls: 0,
@@ -230,7 +236,15 @@ struct SimHandle(Shared);
 
 impl fidget_core::verif::Sim for SimHandle {
     fn choose(&mut self, site: &'static str, n: u32) -> u32 {
-        self.0.borrow_mut().ch.choose(site, n)
+        let mut s = self.0.borrow_mut();
+        if s.force_split && site == "split" {
+            return 1;
+        }
+        if s.fine_preempt && site == "preempt_log2" {
+            // countdown 1 + 2^v + jitter with v = 0: yield within 2-8 points
+            return s.ch.choose("preempt_fine", 2);
+        }
+        s.ch.choose(site, n)
     }
     fn event(&mut self, site: &'static str, a: u64, b: u64) {
         self.0.borrow_mut().on_event(site, a, b);
